@@ -132,7 +132,11 @@ impl Check for Lattice {
         let rhs: Rhs<f64> = Rc::new(move |t, y| Ok(pr.f(t, y)));
         // repaired solvers need at most 1e5 calls on the short intervals (3e6 on the long ones): the budget is 20x that,
         // so that a solver that has stopped terminating is reported quickly instead of being waited for
-        let lim = Limits { max_calls: if p.r >= 1000.0 { 60_000_000 } else { 2_000_000 }, max_items: 3_000_000, extra_next: 0 };
+        // (the budget follows the work a method of that order may legitimately need, 200 x T L tol^(-1/p), between 2e6 and
+        // 6e7: BDF2 at tol 1e-8 on the stiff-ish end of the Gauss block needs 2.4e6 calls, which a flat 2e6 reported as
+        // "does not finish" in the thorough tier)
+        let need = if p.solver == Solver::Euler { 0.0 } else { 200.0 * (cfg.t1 - cfg.t0) * prob.lipschitz(cfg.t0, cfg.t1).max(1.0) * p.tol.powf(-1.0 / p.solver.work_order()) };
+        let lim = Limits { max_calls: if p.r >= 1000.0 { 60_000_000 } else { (need as u64).clamp(2_000_000, 60_000_000) }, max_items: 3_000_000, extra_next: 0 };
         let out = solve::<f64>(p.solver, DimMode::Static, &cfg, &y0, rhs, &lim);
         structural(&mut o, p.solver, &cfg, &y0, &out, &|| format!("{:?}", p));
         o.sig = format!("{}|{}", p.solver.name(), gap_signature(p.solver, &cfg, &out));
